@@ -8,4 +8,6 @@ def instances():
                     unwind=4, unwindset=EMPTY_DECL_UNWIND, timeout=3000, tier="thorough", bounds="context with one integer and one 1-byte string variable", inputs="values, null flag, trusted flag, values written afterwards"))
     out.append(Inst(id="c14.execute", props=["C14"], harness="h_c14.cpp", entry="c14_execute", tus=CORE_TUS, stubs=FMT_STUBS + CTX_STUBS + CONTAINER_STUBS,
                     unwind=3, unwindset=EMPTY_DECL_UNWIND, timeout=600, bounds="one statement executed once at nesting level 0 or 1", inputs="level stamped by an earlier execution (another clone), nesting"))
+    out.append(Inst(id="c14.runtime", props=["C14", "C08"], harness="h_c14.cpp", entry="c14_runtime", tus=CORE_TUS, stubs=FMT_STUBS + CTX_STUBS + CONTAINER_STUBS,
+                    unwind=3, unwindset=EMPTY_DECL_UNWIND, timeout=600, bounds="empty contexts", inputs="recursion depth"))
     return out
